@@ -215,6 +215,23 @@ Definition apply_cb (cb : callback) (data : list (text * value)) : list (text * 
 Definition fac_of (c : option sval) : Z :=
   match c with Some (SV (VFac n)) => n | _ => 0 end.
 
+(* range(count) accepts ints and bools; everything falsy became 0 before ([... or 0]: None, 0.0, "");
+   any other value – a non-zero float, a non-empty str, a date, a class, a function – makes
+   range() raise TypeError *)
+Definition countable (v : value) : bool :=
+  match v with
+  | VNone | VBool _ | VInt _ => true
+  | VFlt q => Qeq_bool q 0%Q
+  | VStr t => forallb (fun k => match k with Lit [] => true | _ => false end) t
+  | _ => false
+  end.
+Definition count_err (c : option sval) (s : stream) : bool :=
+  match c with
+  | None => false
+  | Some (SV v) => negb (countable v)
+  | Some (SR r) => negb (countable (fst (gen r s)))
+  end.
+
 (* count = spec.pop(":count", 1); count = _resolve_random(count) or 0 *)
 Definition resolve_count (c : option sval) (s : stream) : nat * stream :=
   match c with
@@ -271,10 +288,15 @@ Section Build.
     let (ch, s3) := if mem nt rels then rec nt p s2 else ([], s2) in
     (G nt fac data ch, s3).                              (* node_data = factory(data as keywords) *)
 
+  (* the trace of a TypeError raised by range(count): the whole build fails (see [raised]) *)
+  Definition err_node (nt : text) : gt := G nt (-1) [] [].
+
   (* one relation: for node_type, spec in child_specs.items() *)
   Definition make_group (rec : text -> text -> stream -> list gt * stream)
              (prefix : text) (e : text * spec) (s : stream) : list gt * stream :=
     let m := merge_specs (fst e) (snd e) types in
+    if count_err (lookup K_count m) s then ([err_node (fst e)], s)      (* for i in range(count): TypeError *)
+    else
     let (cnt, s1) := resolve_count (lookup K_count m) s in
     smap (make_node rec (fst e) (cb_of (lookup K_callback m)) (fac_of (lookup K_factory m)) (strip m) prefix)
          (seq 1%nat cnt) s1.
@@ -303,6 +325,10 @@ Section Build.
   (* assert "__root__" in relations *)
   Definition def_accepted : bool := mem K_root rels.
 End Build.
+
+(* did range(count) raise somewhere?  (then build_random_tree raises TypeError and returns nothing) *)
+Fixpoint raised (t : gt) : bool :=
+  match t with G _ fac _ ch => (fac =? -1) || existsb raised ch end.
 
 (* node.kind of the generated nodes: the type name in a TypedTree, none in a Tree *)
 Definition kind_of (typed : bool) (t : gt) : option text :=
